@@ -19,12 +19,12 @@ class CSyntaxError(Exception):
 
 
 TOK = re.compile(r"""
-   (?P<ws>\s+)
+   (?P<ws>\s+|/\*.*?\*/|//[^\n]*)
  | (?P<num>0[xX][0-9a-fA-F]+[uUlL]*|\d+[uUlL]*)
  | (?P<id>[A-Za-z_][A-Za-z_0-9]*(?::\d+(?:_NEW)?)?)
  | (?P<str>"(?:[^"\\]|\\.)*")
  | (?P<op>>>=|<<=|\+\+|--|->|&&|\|\||<=|>=|==|!=|<<|>>|\+=|-=|\*=|/=|%=|&=|\^=|\|=|[-+*/%&|^~!<>=?:;,(){}\[\].])
-""", re.X)
+""", re.X | re.S)   # a comment is white space (C11 5.1.1.2 phase 3); '.' spans lines inside /* */
 
 
 def lex(s):
